@@ -8,7 +8,7 @@
             'bytes of [old cursor, fini) are read (exact-size, non-terminated buffer); only r->cursor and *token are written',
  'kf': ['C19_creader_readline_overread'],
  'inject': [{'file': 'igris/creader.h', 'func': 'creader_readline', 'at': 'func-begin', 'ghost': 'g_c0 = reader->cursor;'},
-            {'file': 'igris/creader.h', 'func': 'creader_readline', 'loop': 0, 'expect': 'while (*it !=',
+            {'file': 'igris/creader.h', 'func': 'creader_readline', 'loop': 0, 'expect': 'while (',
              'assigns': 'it',
              'invariants': ['__CPROVER_same_object(it, g_c0)',
                             '(size_t)__CPROVER_POINTER_OFFSET(g_c0) <= (size_t)__CPROVER_POINTER_OFFSET(it) && (size_t)__CPROVER_POINTER_OFFSET(it) <= g_n',
